@@ -455,61 +455,99 @@ fn derive_call_shape(def: &CallDef, symbol_table: &mut BTreeMap<Rc<str>, Shape>)
     }
 }
 
+/// What map, filter and reduce can iterate over.
+enum IterTarget {
+    List,
+    Tuple,
+    Str,
+    /// We can't tell yet. A hole or a narrowed shape with a usable candidate.
+    Unknown,
+}
+
+fn iter_target(shape: &Shape) -> Option<IterTarget> {
+    match shape {
+        Shape::List(_) => Some(IterTarget::List),
+        Shape::Tuple(_) => Some(IterTarget::Tuple),
+        Shape::Str(_) => Some(IterTarget::Str),
+        Shape::Hole(_) | Shape::Import(_) => Some(IterTarget::Unknown),
+        Shape::Narrowed(NarrowedShape {
+            types: NarrowingShape::Any,
+            ..
+        }) => Some(IterTarget::Unknown),
+        Shape::Narrowed(NarrowedShape {
+            types: NarrowingShape::Narrowed(candidates),
+            ..
+        }) => {
+            if candidates.iter().any(|c| iter_target(c).is_some()) {
+                Some(IterTarget::Unknown)
+            } else {
+                None
+            }
+        }
+        _ => None,
+    }
+}
+
+fn any_shape(pos: &Position) -> Shape {
+    Shape::Narrowed(NarrowedShape {
+        pos: pos.clone(),
+        types: NarrowingShape::Any,
+    })
+}
+
 fn derive_func_op_shape(def: &FuncOpDef, symbol_table: &mut BTreeMap<Rc<str>, Shape>) -> Shape {
     match def {
         FuncOpDef::Map(MapFilterOpDef { func, target, pos }) => {
             let target_shape = target.derive_shape(symbol_table);
             let func_shape = func.derive_shape(symbol_table);
-            // target must be a list
-            match &target_shape {
-                Shape::List(_) | Shape::Hole(_) => {}
-                Shape::Narrowed(NarrowedShape {
-                    types: NarrowingShape::Any,
-                    ..
-                }) => {}
-                _ => {
-                    return Shape::TypeErr(
-                        pos.clone(),
-                        format!(
-                            "map target must be a list, got {}",
-                            target_shape.type_name()
-                        ),
-                    );
-                }
+            if let Shape::TypeErr(_, _) = target_shape {
+                return target_shape;
             }
-            // Return type is List(func.ret)
-            match &func_shape {
-                Shape::Func(fdef) => Shape::List(NarrowedShape::new_with_pos(
-                    vec![fdef.ret.as_ref().clone()],
+            // target must be a list, tuple or string
+            match iter_target(&target_shape) {
+                Some(IterTarget::List) => {
+                    // Return type is List(func.ret)
+                    match &func_shape {
+                        Shape::Func(fdef) => Shape::List(NarrowedShape::new_with_pos(
+                            vec![fdef.ret.as_ref().clone()],
+                            pos.clone(),
+                        )),
+                        _ => Shape::List(NarrowedShape {
+                            pos: pos.clone(),
+                            types: NarrowingShape::Any,
+                        }),
+                    }
+                }
+                // Mapping a string gives a string.
+                Some(IterTarget::Str) => Shape::Str(pos.clone()),
+                // The fields of a mapped tuple are decided by the function.
+                Some(IterTarget::Tuple) | Some(IterTarget::Unknown) => any_shape(pos),
+                None => Shape::TypeErr(
                     pos.clone(),
-                )),
-                _ => Shape::List(NarrowedShape {
-                    pos: pos.clone(),
-                    types: NarrowingShape::Any,
-                }),
+                    format!(
+                        "map target must be a list, tuple or string, got {}",
+                        target_shape.type_name()
+                    ),
+                ),
             }
         }
         FuncOpDef::Filter(MapFilterOpDef { func, target, pos }) => {
             let target_shape = target.derive_shape(symbol_table);
             let _func_shape = func.derive_shape(symbol_table);
-            // target must be a list, return type is same list type
-            match &target_shape {
-                Shape::List(_) => target_shape,
-                Shape::Hole(_) => Shape::List(NarrowedShape {
-                    pos: pos.clone(),
-                    types: NarrowingShape::Any,
-                }),
-                Shape::Narrowed(NarrowedShape {
-                    types: NarrowingShape::Any,
-                    ..
-                }) => Shape::List(NarrowedShape {
-                    pos: pos.clone(),
-                    types: NarrowingShape::Any,
-                }),
-                _ => Shape::TypeErr(
+            if let Shape::TypeErr(_, _) = target_shape {
+                return target_shape;
+            }
+            // target must be a list, tuple or string
+            match iter_target(&target_shape) {
+                // filtering a list or string keeps its type
+                Some(IterTarget::List) => target_shape,
+                Some(IterTarget::Str) => Shape::Str(pos.clone()),
+                // Filtering a tuple can remove any of its fields.
+                Some(IterTarget::Tuple) | Some(IterTarget::Unknown) => any_shape(pos),
+                None => Shape::TypeErr(
                     pos.clone(),
                     format!(
-                        "filter target must be a list, got {}",
+                        "filter target must be a list, tuple or string, got {}",
                         target_shape.type_name()
                     ),
                 ),
@@ -524,22 +562,18 @@ fn derive_func_op_shape(def: &FuncOpDef, symbol_table: &mut BTreeMap<Rc<str>, Sh
             let target_shape = target.derive_shape(symbol_table);
             let acc_shape = acc.derive_shape(symbol_table);
             let func_shape = func.derive_shape(symbol_table);
-            // target must be a list
-            match &target_shape {
-                Shape::List(_) | Shape::Hole(_) => {}
-                Shape::Narrowed(NarrowedShape {
-                    types: NarrowingShape::Any,
-                    ..
-                }) => {}
-                _ => {
-                    return Shape::TypeErr(
-                        pos.clone(),
-                        format!(
-                            "reduce target must be a list, got {}",
-                            target_shape.type_name()
-                        ),
-                    );
-                }
+            if let Shape::TypeErr(_, _) = target_shape {
+                return target_shape;
+            }
+            // target must be a list, tuple or string
+            if iter_target(&target_shape).is_none() {
+                return Shape::TypeErr(
+                    pos.clone(),
+                    format!(
+                        "reduce target must be a list, tuple or string, got {}",
+                        target_shape.type_name()
+                    ),
+                );
             }
             // Return type is acc's shape narrowed against func.ret
             match &func_shape {
